@@ -60,6 +60,11 @@ def run(ctx):
         ctx.notes["tlaps_split_lemma_wrong_coefficient"] = prm.summary()
         if prm.failed == 0:
             raise tlc.TLCMachineryError("SplitLemmaProof with a wrong coefficient was proved: the proof is vacuous")
+    res_d = tlc.run("BrownianDerived", timeout=600, workers=1, cfg_text=f"SPECIFICATION Spec\nCONSTANT N = {5 if quick else 7}\nCHECK_DEADLOCK FALSE\n")
+    ctx.add_tlc(res_d, "BrownianDerived: ReverseBrownian is the path -B(-t) (W, U from its own cells; Chen), legacy U breaks it; "
+                       "offset wrappers: points are the path, w0 only on points")
+    if not res_d.ok:
+        ctx.violation(dict(kind="spec", invariant=res_d.violated or "assumption"), "wrapper lemma violated in the specification")
     cov = levytab = None
     for p in res.printed:
         if p["kind"] == "cov":
@@ -110,14 +115,16 @@ def run(ctx):
             lv, sup = modes[k % len(modes)]
             k += 1
             probes = rnd.sample(probes_all, min(6, len(probes_all)))
-            fails = P.check_law(cfg, qs, probes, cov, lv, supplied=sup)
+            # every fourth case through ReverseBrownian (the path X(t) = -B(-t) of BrownianDerived.tla)
+            wr = "reverse" if (k % 4 == 0 and sup == "none") else "interval"
+            fails = P.check_law(cfg, qs, probes, cov, lv, supplied=sup, wrapper=wr)
             if any(f[0] == "machinery_label_overflow" for f in fails):
                 raise RuntimeError("label overflow")
-            ctx.case((name, str(qs), lv, sup), nontrivial=any(h["nn"] > 1 for h in beh["hist"]), trace=True,
-                     sample=dict(cfg=name, history=qs, probes=probes, levy=lv, supplied=sup))
+            ctx.case((name, str(qs), lv, sup, wr), nontrivial=any(h["nn"] > 1 for h in beh["hist"]), trace=True,
+                     sample=dict(cfg=name, history=qs, probes=probes, levy=lv, supplied=sup, wrapper=wr))
             for kind, det in fails[:2]:
-                ctx.violation(dict(cfg=name, kind=kind, levy=lv, supplied=sup, entry=det.get("kind")),
-                              f"Gram entry {det} after history {qs}",
+                ctx.violation(dict(cfg=name, kind=kind, levy=lv, supplied=sup, entry=det.get("kind"), wrapper=wr),
+                              f"Gram entry {det} after history {qs}" + (" (through ReverseBrownian)" if wr == "reverse" else ""),
                               replay=dict(cfg=cfg.as_dict(), queries=qs, probes=probes, levy=lv, supplied=sup))
             if k % 5 == 0:
                 for lv2 in ("none", "space-time", "foster"):
